@@ -97,7 +97,8 @@ int main(int argc, char** argv) {
               if (isStatic) { gz_t g; ZSTD_DStream* d; ZSTD_inBuffer in; int guard = 0; est = ZSTD_estimateDStreamSize((size_t)W); g = gz_make(est); d = ZSTD_initStaticDStream(g.blk, est);
                   in.src = comp; in.size = cs; in.pos = 0;
                   while (d && in.pos < cs && ++guard < 10000000) { ZSTD_outBuffer ob; ob.dst = out + total; ob.size = (size_t)ochunk; ob.pos = 0; { size_t save = in.size; in.size = in.pos + 3000 > cs ? cs : in.pos + 3000; r = ZSTD_decompressStream(d, &ob, &in); in.size = save; } if (ZSTD_isError(r)) { ok = 0; err = ZSTD_getErrorName(r); break; } total += ob.pos; if (r == 0) break; }
-                  fprintf(T, "{\"e\":\"staticDStream\",\"W\":%ld,\"window\":%llu,\"size\":%ld,\"estimate\":%zu,\"init\":%s,\"ok\":%s,\"match\":%s,\"guardOK\":%s,\"err\":\"%s\"}\n", W, (unsigned long long)fh.windowSize, size, est, d ? "true" : "false",
+                  fprintf(T, "{\"e\":\"staticDStream\",\"W\":%ld,\"window\":%llu,\"size\":%ld,\"estimate\":%zu,\"mayShortcut\":%s,\"init\":%s,\"ok\":%s,\"match\":%s,\"guardOK\":%s,\"err\":\"%s\"}\n", W, (unsigned long long)fh.windowSize, size, est,
+                          /* whole frame in the first call, content size known, output room for all of it: decoded in one pass, no internal buffers needed */ (fcs && cs <= 3000 && (size_t)ochunk >= (size_t)size) ? "true" : "false", d ? "true" : "false",
                           (d && ok) ? "true" : "false", (d && ok && total == (size_t)size && !memcmp(out, src, size)) ? "true" : "false", gz_ok(g) ? "true" : "false", err);
                   free(g.base);
               } else { ZSTD_DCtx* d; ZSTD_inBuffer in; int guard = 0; size_t limit = (size_t)1 << W; size_t bound; liveBytes = peakBytes = nAllocs = 0; d = ZSTD_createDCtx_advanced(CM);
